@@ -6,7 +6,11 @@ for d in "$HERE"/seeded/${1:-}*/; do
   id=$(basename "$d")
   checks=$(python3 -c "import json,sys;print(' '.join(json.load(open(sys.argv[1]))['caught_by']))" "$d/meta.json")
   # a change that no longer breaks its property on the current tree (meta.json: obsolete) has nothing to be caught by
-  if [ -z "$checks" ]; then echo "OBSOLETE $id"; continue; fi
+  if [ -z "$checks" ]; then
+    # meta.json: missed = a confirmed change that no check catches yet (recorded honestly, DESIGN 17.10)
+    if grep -q '"missed": true' "$d/meta.json"; then echo "NOT-CAUGHT-RECORDED $id"; else echo "OBSOLETE $id"; fi
+    continue
+  fi
   "$HERE/tools/try_mutation.sh" "$d/patch.diff" $checks 2>&1 | while read -r line; do
     case "$line" in
       *"exit=1"*VIOLATION*) echo "CAUGHT $id ${line%% *} $(echo "$line" | sed 's/.*class \([^:]*\):.*/\1/' | cut -c1-60)";;
